@@ -203,6 +203,8 @@ def run_case(case, seed=0, replay_dir=None, known=None):
             if hasattr(case, "prepare_interp"):
                 case.prepare_interp(it, inp)
             outs = it.run(closed, [inp[k] for k in names])
+            case.interp_probes = it.probes.get("eigh", [])
+            case.interp = it
             return jax.tree_util.tree_unflatten(treedef, outs), it
 
         def real(inp):  # the repository code as it is, no stubs
@@ -438,7 +440,7 @@ def _replay(case, vals, label, real):
     for lab, lhs, rhs in rels:
         if lab != label:
             continue
-        lhs, rhs = complex(lhs), complex(rhs)
+        lhs, rhs = _cplx(lhs), _cplx(rhs)
         ok = bool(np.isfinite(lhs) and np.isfinite(rhs)) and max(abs(lhs.real), abs(lhs.imag), abs(rhs.real), abs(rhs.imag)) < 1e150
         if not ok:
             return {"violates": False, "summary": f"non-finite on replay: lhs={lhs} rhs={rhs}", "finite": False}
@@ -447,6 +449,13 @@ def _replay(case, vals, label, real):
         return {"violates": bool(ok and bad), "summary": f"real code lhs={lhs:.12g} oracle rhs={rhs:.12g}",
                 "lhs": [lhs.real, lhs.imag], "rhs": [rhs.real, rhs.imag], "finite": bool(ok)}
     return {"violates": False, "summary": "label not found on replay"}
+
+
+def _cplx(x):
+    if isinstance(x, Q):
+        assert x.isconst()
+        return complex(float(x.c[0]), float(x.c[1]))
+    return complex(x)
 
 
 def _as_obj(x):
